@@ -559,4 +559,61 @@ example : standardHistory
         accepts := fun _ => true } ]
     = [.established [] (.password (b!"pw")), .hostKeyRejected] := by decide
 
+/-! ## the rest of the public surface: spawn failure, file options, in-channel credentials -/
+
+/-- a binary that cannot be started changes nothing but the result: `Open` fails, otherwise the
+very same `(bin, argv)` is spawned -/
+theorem systemOpenSpawn_table (a : Args) (t : System) (keyLoads binRuns : Bool) :
+    systemOpenSpawn a t keyLoads binRuns =
+      match systemOpen a t keyLoads with
+      | .error e => .error e
+      | .ok r => if binRuns then .ok r else .error .spawn := by
+  unfold systemOpenSpawn
+  cases systemOpen a t keyLoads <;> rfl
+
+/-- `resolve_file_option`: the option table of `WithSSHKnownHostsFile[System]` /
+`WithSSHConfigFile[System]`: nothing configured without the option; an explicit path is taken
+iff it resolves and is otherwise an error (no driver, hence no connection); the system variant
+prefers the user's file over the system-wide one and is an error when neither exists. -/
+theorem resolve_file_option (home etc : Bytes) (o : FileOpt) :
+    resolveFileOpt home etc o =
+      match o with
+      | .none => .ok []
+      | .path p true => .ok p
+      | .path _ false => .error .fileNotFound
+      | .system true _ => .ok home
+      | .system false true => .ok etc
+      | .system false false => .error .badOption := by
+  cases o with
+  | none => rfl
+  | path p f => cases f <;> rfl
+  | system h e => cases h <;> cases e <;> rfl
+
+/-- a resolved file is one the caller named or one of the two well-known locations — never
+anything else -/
+theorem resolve_file_option_sound (home etc r : Bytes) (o : FileOpt) (h : resolveFileOpt home etc o = .ok r) :
+    r = [] ∧ o = .none ∨ (∃ p, o = .path p true ∧ r = p) ∨ (∃ e, o = .system true e ∧ r = home) ∨
+      (o = .system false true ∧ r = etc) := by
+  cases o with
+  | none => simp [resolveFileOpt] at h; exact .inl ⟨h, rfl⟩
+  | path p f =>
+    cases f <;> simp [resolveFileOpt] at h
+    exact .inr (.inl ⟨p, rfl, h.symm⟩)
+  | system hh e =>
+    cases hh <;> cases e <;> simp [resolveFileOpt] at h
+    · exact .inr (.inr (.inr ⟨rfl, h.symm⟩))
+    · exact .inr (.inr (.inl ⟨false, rfl, h.symm⟩))
+    · exact .inr (.inr (.inl ⟨true, rfl, h.symm⟩))
+
+/-- the standard transport hands the channel no credential: the password can reach the server
+only through the authentication exchange configured by `standardCfg` -/
+theorem standard_no_in_channel_credentials (a : Args) (s : SSHArgs) :
+    inChannelAuthData .standard a s = { type := .unsupported, user := [], password := [], passphrase := [] } := rfl
+
+/-- the system transport hands the channel exactly the configured user, password and passphrase
+(to be typed at ssh's own prompts on the pty, never put on the command line: `argv_no_password`) -/
+theorem system_in_channel_identity (a : Args) (s : SSHArgs) :
+    inChannelAuthData .system a s =
+      { type := .ssh, user := a.user, password := a.password, passphrase := s.privateKeyPassPhrase } := rfl
+
 end Scrapli.SshCfg.C14
